@@ -175,7 +175,7 @@ Lemma LF : forall (TH : list nat),
   (forall ci rh, borrowed g ci = true -> borrow_ok g (Some ci) rh -> borrow_ok g' (Some ci) rh) ->
   (forall p n c cur, t_pc (F th) = FWalk p n c cur ->
       exists hk, get_hook g' p = Some hk /\ h_mu hk = Some t /\ h_refs hk = 0 /\ tokens g' p = n /\
-                 0 < n /\ forwarded p hk = true /\ reach g' p cur /\ borrow_ok g' c (Some cur)) ->
+                 0 < n /\ forwarded p hk = true /\ path1 g' p cur /\ borrow_ok g' c (Some cur)) ->
   (forall p rh c, t_pc (F th) = FMark p rh c -> borrow_ok g' c rh) ->
   InvF g'.
 Proof.
@@ -187,7 +187,7 @@ Proof.
       destruct (in_dec Nat.eq_dec p TH) as [Hi|Hi].
       * destruct (Hmine _ _ Hi A1) as [X|X]; congruence.
       * destruct (Hfr _ Hi) as (B1 & B2). exists hk. rewrite B1, B2. repeat split; auto.
-        eapply reach_mono; eauto.
+        eapply path1_mono; eauto.
         destruct c as [ci|]; [|exact A8]. apply Hbor; auto.
         eapply borrowed_of_pc_flight; eauto.
   - intros t' p rh c P. destruct (pcs_new _ _ P) as [(-> & E)|(Hne & P0)].
@@ -719,7 +719,7 @@ Proof.
       destruct (inv_flight g IF _ _ _ _ _ P) as (hp & A1 & A2 & A3 & A4 & A5 & A6 & A7 & A8).
       assert (p <> x) by (intros ->; congruence).
       exists hp. rewrite Hgh, Htok; auto. rewrite (proj2 (Nat.eqb_neq x p)); auto.
-      repeat split; auto; try lia. eapply reach_mono; eauto.
+      repeat split; auto; try lia. eapply path1_mono; eauto.
     + intros t p rh c P. apply Hpc in P. apply Hbo. apply (inv_fmark g IF _ _ _ _ P).
 Qed.
 
@@ -803,7 +803,7 @@ Proof.
       destruct (inv_flight g IF _ _ _ _ _ P) as (hp & A1 & A2 & A3 & A4 & A5 & A6 & A7 & A8).
       assert (p <> L). { apply nth_error_some_lt in A1. unfold L. lia. }
       exists hp. rewrite Hgh, Htok; auto. rewrite (proj2 (Nat.eqb_neq L p)); auto.
-      repeat split; auto; try lia. eapply reach_mono; eauto.
+      repeat split; auto; try lia. eapply path1_mono; eauto.
     + intros t p rh0 c P. apply Hpc in P. apply Hbo. apply (inv_fmark g IF _ _ _ _ P).
 Qed.
 
@@ -888,4 +888,11 @@ Proof.
   destruct rh as [y|].
   - apply (tgt_ok_retarget g g' p q _ y L Hq B3).
   - rewrite B3. simpl. auto.
+Qed.
+
+Lemma fmark_body_misuse : forall fixed t p rh c hk g,
+  misuse g = true -> misuse (fmark_body fixed t p rh c hk g) = true.
+Proof.
+  intros. unfold fmark_body.
+  repeat match goal with |- context[match ?x with _ => _ end] => destruct x end; cbn; auto.
 Qed.
